@@ -41,6 +41,50 @@ type denum struct {
 	inSwitch    int
 	decls       map[types.Object]*ast.FuncDecl // package-local functions that may be inlined when they are used as conditions
 	inlineDepth int
+	tsClause    map[ast.Expr]*ast.CaseClause     // synthetic type atoms → the clause taken (nil: default / no clause)
+	tsSwitch    map[ast.Expr]*ast.TypeSwitchStmt // … → their type switch
+}
+
+func (d *denum) noteTS(atom ast.Expr, cc *ast.CaseClause, s *ast.TypeSwitchStmt) {
+	if d.tsClause == nil {
+		d.tsClause = map[ast.Expr]*ast.CaseClause{}
+		d.tsSwitch = map[ast.Expr]*ast.TypeSwitchStmt{}
+	}
+	d.tsClause[atom] = cc
+	d.tsSwitch[atom] = s
+}
+
+// typeAtomHolds: is the synthetic type-switch atom consistent with the dynamic type named kind ("nil" for a nil interface)?
+func (d *denum) typeAtomHolds(atom ast.Expr, kind string) bool {
+	names := func(cc *ast.CaseClause) map[string]bool {
+		m := map[string]bool{}
+		for _, e := range cc.List {
+			t := d.info.TypeOf(e)
+			if nt, ok := t.(*types.Named); ok {
+				m[nt.Obj().Name()] = true
+			} else if pt, ok := t.(*types.Pointer); ok {
+				if nt, ok := pt.Elem().(*types.Named); ok {
+					m["*"+nt.Obj().Name()] = true
+				}
+			} else if id, ok := e.(*ast.Ident); ok && id.Name == "nil" {
+				m["nil"] = true
+			}
+		}
+		return m
+	}
+	sw := d.tsSwitch[atom]
+	if sw == nil {
+		return true
+	}
+	if cc := d.tsClause[atom]; cc != nil {
+		return names(cc)[kind]
+	}
+	for _, cl := range sw.Body.List {
+		if cc := cl.(*ast.CaseClause); cc.List != nil && names(cc)[kind] {
+			return false
+		}
+	}
+	return true
 }
 
 func (s dstate) with(e ast.Expr, v bool) dstate {
@@ -406,10 +450,16 @@ func (d *denum) run(stmts []ast.Stmt, in []dstate) []dstate {
 				var in2 []dstate
 				if cc.List == nil {
 					hasDefault = true
-					in2 = cur
-				} else {
+					atom := &ast.TypeAssertExpr{X: ast.NewIdent("·default"), Lparen: cc.Pos()}
+					d.noteTS(atom, nil, s)
 					for _, x := range cur {
-						in2 = append(in2, x.with(&ast.TypeAssertExpr{X: ast.NewIdent("·type"), Type: cc.List[0], Lparen: cc.Pos()}, true))
+						in2 = append(in2, x.with(atom, true))
+					}
+				} else {
+					atom := &ast.TypeAssertExpr{X: ast.NewIdent("·type"), Type: cc.List[0], Lparen: cc.Pos()}
+					d.noteTS(atom, cc, s)
+					for _, x := range cur {
+						in2 = append(in2, x.with(atom, true))
 					}
 				}
 				d.inSwitch++
@@ -417,10 +467,21 @@ func (d *denum) run(stmts []ast.Stmt, in []dstate) []dstate {
 				d.inSwitch--
 			}
 			if !hasDefault {
-				after = append(after, cur...)
+				atom := &ast.TypeAssertExpr{X: ast.NewIdent("·default"), Lparen: s.End()}
+				d.noteTS(atom, nil, s)
+				for _, x := range cur {
+					after = append(after, x.with(atom, true))
+				}
 			}
 			cur = after
 		case *ast.BranchStmt:
+			if d.loopBody && s.Label != nil && (s.Tok == token.CONTINUE || s.Tok == token.BREAK) {
+				// a labelled jump out of (or to the head of) an enclosing loop: this iteration is over
+				for _, x := range cur {
+					d.paths = append(d.paths, dpath{Conds: x.conds, Env: x.env, Trace: x.trace, Exit: s.Tok.String() + " " + s.Label.Name})
+				}
+				return nil
+			}
 			if d.loopBody && s.Label == nil && (s.Tok == token.CONTINUE || s.Tok == token.BREAK && d.inSwitch == 0) {
 				for _, x := range cur {
 					d.paths = append(d.paths, dpath{Conds: x.conds, Env: x.env, Trace: x.trace, Exit: s.Tok.String()})
